@@ -72,6 +72,8 @@ enum : unsigned
 struct OOM
 {
 };
+// C17: at most one allocation fails per run (the failing one is chosen by the solver); afterwards allocations succeed
+inline int g_alloc_failures = 0;
 
 template <class T, unsigned FLAGS = AF_ALWAYS_EQUAL>
 struct SAlloc
@@ -101,8 +103,9 @@ struct SAlloc
         if constexpr ((FLAGS & AF_THROWS) != 0)
         {
 #if defined(__cpp_exceptions) || defined(__EXCEPTIONS)
-            if (verif_alloc_fail())
+            if (g_alloc_failures == 0 && verif_alloc_fail())
             {
+                ++g_alloc_failures;
                 throw OOM{};
             }
 #endif
